@@ -78,6 +78,11 @@ func (j *JWK) UnmarshalJSON(jwkBytes []byte) error {
 		return fmt.Errorf("unable to read JWK: %w", marshalErr)
 	}
 
+	if key.Kty == "OKP" && key.Crv == "Ed25519" && (key.X == nil || len(key.X.data) != ed25519.PublicKeySize) {
+		// go-jose silently truncates or zero-pads the coordinate to 32 bytes
+		return fmt.Errorf("unable to read JWK: %w", ErrInvalidKey)
+	}
+
 	if isSecp256k1(key.Kty, key.Crv) {
 		jwk, err := unmarshalSecp256k1(&key)
 		if err != nil {
